@@ -328,65 +328,68 @@ End SegProj.
 
 (* ================================================================== iterator items in sync with the table:
    indices increasing from n on, the snapshot an item carries IS the table entry, undelivered *)
-Fixpoint synced (l : list seg) (n : nat) (items : list for_sending) : Prop :=
+Fixpoint synced (u : Z) (l : list seg) (n : nat) (items : list for_sending) : Prop :=
   match items with
   | [] => True
   | f :: r => (n <= fs_idx f)%nat /\ nth_error l (fs_idx f) = Some (fs_seg f) /\
-              sg_delivered (fs_seg f) = false /\ synced l (S (fs_idx f)) r
+              (sg_delivered (fs_seg f) = false /\ fs_seq f = wadd16 u (Z.of_nat (fs_idx f) mod M16)) /\
+              synced u l (S (fs_idx f)) r
   end.
 
-Lemma synced_weaken : forall l items n m, (m <= n)%nat -> synced l n items -> synced l m items.
+Lemma synced_weaken : forall u l items n m, (m <= n)%nat -> synced u l n items -> synced u l m items.
 Proof.
-  intros l items n m H. destruct items as [|f r]; cbn [synced]; [auto|].
-  intros (A & B & C & D). repeat split; auto. lia.
+  intros u l items n m H. destruct items as [|f r]; cbn [synced]; [auto|].
+  intros (A & B & C & D). split; [lia|]. split; [exact B|]. split; [exact C | exact D].
 Qed.
 
-Lemma synced_update : forall l phi i items n,
-  (i < n)%nat -> synced l n items -> synced (update_nth l i phi) n items.
+Lemma synced_update : forall u l phi i items n,
+  (i < n)%nat -> synced u l n items -> synced u (update_nth l i phi) n items.
 Proof.
-  intros l phi i. induction items as [|f r IH]; intros n H; cbn [synced]; [auto|].
+  intros u l phi i. induction items as [|f r IH]; intros n H; cbn [synced]; [auto|].
   intros (A & B & C & D). split; [exact A|]. split.
   - rewrite nth_error_update_nth. destruct (Nat.eqb_spec i (fs_idx f)); [lia | exact B].
   - split; [exact C|]. apply IH; [lia | exact D].
 Qed.
 
-Lemma synced_filter : forall l p items n, synced l n items -> synced l n (filter p items).
+Lemma synced_filter : forall u l p items n, synced u l n items -> synced u l n (filter p items).
 Proof.
-  intros l p. induction items as [|f r IH]; intros n; cbn [synced filter]; [auto|].
+  intros u l p. induction items as [|f r IH]; intros n; cbn [synced filter]; [auto|].
   intros (A & B & C & D). destruct (p f); cbn [synced].
-  - repeat split; auto.
+  - split; [exact A|]. split; [exact B|]. split; [exact C | apply IH; exact D].
   - eapply synced_weaken; [|apply IH; exact D]. lia.
 Qed.
 
-Lemma synced_firstn : forall l k items n, synced l n items -> synced l n (firstn k items).
+Lemma synced_firstn : forall u l k items n, synced u l n items -> synced u l n (firstn k items).
 Proof.
-  intros l. induction k as [|k IH]; intros [|f r] n; cbn [synced firstn]; auto.
-  intros (A & B & C & D). repeat split; auto.
+  intros u l. induction k as [|k IH]; intros [|f r] n; cbn [synced firstn]; auto.
+  intros (A & B & C & D). split; [exact A|]. split; [exact B|]. split; [exact C | apply IH; exact D].
 Qed.
 
-Lemma synced_take_while : forall l p items n, synced l n items -> synced l n (take_while p items).
+Lemma synced_take_while : forall u l p items n, synced u l n items -> synced u l n (take_while p items).
 Proof.
-  intros l p. induction items as [|f r IH]; intros n; cbn [synced take_while]; [auto|].
-  intros (A & B & C & D). destruct (p f); cbn [synced]; [repeat split; auto | exact I].
+  intros u l p. induction items as [|f r IH]; intros n; cbn [synced take_while]; [auto|].
+  intros (A & B & C & D). destruct (p f); cbn [synced]; [|exact I].
+  split; [exact A|]. split; [exact B|]. split; [exact C | apply IH; exact D].
 Qed.
 
-Lemma synced_skip_while : forall l p items n, synced l n items -> synced l n (skip_while p items).
+Lemma synced_skip_while : forall u l p items n, synced u l n items -> synced u l n (skip_while p items).
 Proof.
-  intros l p. induction items as [|f r IH]; intros n; cbn [synced skip_while]; [auto|].
-  intros (A & B & C & D). destruct (p f); cbn [synced]; [|repeat split; auto].
+  intros u l p. induction items as [|f r IH]; intros n; cbn [synced skip_while]; [auto|].
+  intros (A & B & C & D). destruct (p f); cbn [synced]; [|split; [exact A|]; split; [exact B|]; split; [exact C | exact D]].
   eapply synced_weaken; [|apply IH; exact D]. lia.
 Qed.
 
-Lemma synced_In : forall l items n f, synced l n items -> In f items ->
-  nth_error l (fs_idx f) = Some (fs_seg f) /\ sg_delivered (fs_seg f) = false.
+Lemma synced_In : forall u l items n f, synced u l n items -> In f items ->
+  nth_error l (fs_idx f) = Some (fs_seg f) /\ sg_delivered (fs_seg f) = false /\
+  fs_seq f = wadd16 u (Z.of_nat (fs_idx f) mod M16).
 Proof.
-  intros l. induction items as [|g r IH]; intros n f; cbn [synced In]; [tauto|].
-  intros (A & B & C & D) [<-|H]; [auto | eapply IH; eauto].
+  intros u l. induction items as [|g r IH]; intros n f; cbn [synced In]; [tauto|].
+  intros (A & B & [C C'] & D) [<-|H]; [auto | eapply IH; eauto].
 Qed.
 
 Lemma synced_iter_gen : forall (u rm : Z) (t l' : list seg) i,
   (forall k x, nth_error l' k = Some x -> nth_error t (i + k) = Some x) ->
-  synced t i
+  synced u t i
     (filter (fun f => negb (sg_delivered (fs_seg f)))
        (map (fun '(i, s) => {| fs_idx := i; fs_seq := wadd16 u (Z.of_nat i mod M16);
                                fs_payload_offset := sg_abs s - rm; fs_seg := s |})
@@ -398,10 +401,10 @@ Proof.
   cbn [fs_seg]. destruct (sg_delivered x) eqn:Ed; cbn [negb synced fs_idx fs_seg].
   - eapply synced_weaken; [|apply IH; exact Hx]. lia.
   - split; [lia|]. split; [rewrite <- (Nat.add_0_r i); apply H; reflexivity|].
-    split; [exact Ed|]. apply IH. exact Hx.
+    split; [split; [exact Ed | reflexivity]|]. apply IH. exact Hx.
 Qed.
 
-Lemma synced_iter : forall t st, synced (ss_segs t) 0 (iter_for_sending t st).
+Lemma synced_iter : forall t st, synced (ss_snd_una t) (ss_segs t) 0 (iter_for_sending t st).
 Proof.
   intros t st. unfold iter_for_sending.
   eapply synced_weaken; [|apply synced_iter_gen]; [lia|].
@@ -631,17 +634,28 @@ Proof. intro e. destruct e; first [left; reflexivity | right; discriminate]. Qed
 
 Section SendRule.
 Variable Iv : vsock -> Prop.
+Variable Jv : vsock -> Prop.          (* after a transmission attempt answered EMSGSIZE *)
 Variable Ev : vsock -> verror -> Prop.
 Hypothesis I_fpr : forall s s' : vsock, fpr s s' -> Iv s -> Iv s'.
+Hypothesis I_emsg : forall (s : vsock) h f s1, Iv s -> send_data s h f = SOk s1 SdEmsgsize -> Jv s1.
+Hypothesis J_E : forall s e, Jv s -> e <> ErrMaxRetransmissionsReached -> Ev s e.
 Hypothesis I_sent : forall (s : vsock) h f s1 n rest,
-  Iv s -> synced (ss_segs (v_segs s)) n (f :: rest) -> send_data s h f = SOk s1 SdSent -> Iv s1.
+  Iv s -> synced (ss_snd_una (v_segs s)) (ss_segs (v_segs s)) n (f :: rest) -> send_data s h f = SOk s1 SdSent -> Iv s1.
 Hypothesis E_of_I : forall s e, Iv s -> e <> ErrMaxRetransmissionsReached -> Ev s e.
 Hypothesis E_max : forall (s : vsock) f n rest,
-  Iv s -> synced (ss_segs (v_segs s)) n (f :: rest) ->
+  Iv s -> synced (ss_snd_una (v_segs s)) (ss_segs (v_segs s)) n (f :: rest) ->
   seg_retransmit_count (fs_seg f) = o_max_retx (v_opts s) -> Ev s ErrMaxRetransmissionsReached.
 Hypothesis I_pop : forall (s : vsock) segs' q ss',
-  Iv s -> pop_mtu_probe (v_segs s) q = (segs', true) ->
+  Jv s -> pop_mtu_probe (v_segs s) q = (segs', true) ->
   Iv (set_restart (set_ss (VSockRec.set_segs s segs') ss') true).
+
+Definition stN (m : step (option (Z * Z))) : Prop :=
+  match m with
+  | SOk s' None => Iv s'
+  | SOk s' (Some _) => Jv s'
+  | SErr s' e => Ev s' e
+  | SPanic => True
+  end.
 
 Definition stI {X} (m : step X) : Prop :=
   match m with SOk s' _ => Iv s' | SErr s' e => Ev s' e | SPanic => True end.
@@ -652,10 +666,11 @@ Proof. intros X Y m k Hm Hk. destruct m as [s1 a|s1 e|]; cbn [sbind stI] in *; a
 
 (* one transmission attempt *)
 Lemma send_data_rule : forall (s : vsock) h f n rest,
-  Iv s -> synced (ss_segs (v_segs s)) n (f :: rest) ->
+  Iv s -> synced (ss_snd_una (v_segs s)) (ss_segs (v_segs s)) n (f :: rest) ->
   match send_data s h f with
-  | SOk s1 SdSent => Iv s1 /\ synced (ss_segs (v_segs s1)) (S (fs_idx f)) rest
-  | SOk s1 _ => Iv s1 /\ v_segs s1 = v_segs s
+  | SOk s1 SdSent => Iv s1 /\ synced (ss_snd_una (v_segs s1)) (ss_segs (v_segs s1)) (S (fs_idx f)) rest
+  | SOk s1 SdPending => Iv s1
+  | SOk s1 SdEmsgsize => Jv s1
   | SErr s1 e => Ev s1 e
   | SPanic => True
   end.
@@ -664,17 +679,17 @@ Proof.
   pose proof (send_data_spec s h f) as Hd. pose proof (send_data_fpr_other s h f) as Hf.
   destruct (send_data s h f) as [s1 [| |]|s1 e|] eqn:Ed; try exact I.
   - split; [eapply I_sent; eauto|].
-    destruct Hd as (_ & _ & Hsg & _). rewrite Hsg. unfold on_sent, Segments.set_segs. cbn [ss_segs].
+    destruct Hd as (_ & _ & Hsg & _). rewrite Hsg. unfold on_sent, Segments.set_segs. cbn [ss_segs ss_snd_una].
     destruct Hs as (_ & _ & _ & Hr). apply synced_update; [lia | exact Hr].
-  - destruct Hd as (Hu & _). split; [apply (I_fpr s s1 Hf Hi) | apply Hu].
-  - destruct Hd as (Hu & _). split; [apply (I_fpr s s1 Hf Hi) | apply Hu].
+  - apply (I_fpr s s1 Hf Hi).
+  - eapply I_emsg; eauto.
   - destruct (verror_eq_max e) as [->|Hne].
     + apply send_data_err_max in Ed. destruct Ed as [-> Hc]. eapply E_max; eauto.
     + apply E_of_I; [apply (I_fpr s s1 Hf Hi) | exact Hne].
 Qed.
 
 Lemma recovery_loop_rule : forall items (s : vsock) h mss0 st n,
-  Iv s -> synced (ss_segs (v_segs s)) n items -> stI (recovery_loop items s h mss0 st).
+  Iv s -> synced (ss_snd_una (v_segs s)) (ss_segs (v_segs s)) n items -> stI (recovery_loop items s h mss0 st).
 Proof.
   induction items as [|f rest IH]; intros s h mss0 st n Hi Hs; cbn [recovery_loop]; [exact Hi|].
   destruct (negb _); [exact Hi|].
@@ -684,21 +699,21 @@ Proof.
   destruct (send_data s h f) as [s1 r|s1 e|]; cbn [stI]; auto.
   destruct r; cbn [stI].
   - destruct Hd as [H1 H2]. eapply IH; eauto.
-  - apply Hd.
-  - apply E_of_I; [apply Hd | discriminate].
+  - exact Hd.
+  - apply J_E; [exact Hd | discriminate].
 Qed.
 
 Lemma new_data_loop_rule : forall items (s : vsock) h remaining n,
-  Iv s -> synced (ss_segs (v_segs s)) n items -> stI (new_data_loop items s h remaining).
+  Iv s -> synced (ss_snd_una (v_segs s)) (ss_segs (v_segs s)) n items -> stN (new_data_loop items s h remaining).
 Proof.
   induction items as [|f rest IH]; intros s h remaining n Hi Hs; cbn [new_data_loop]; [exact Hi|].
   destruct (_ <? _); [exact Hi|].
   pose proof (send_data_rule s h f n rest Hi Hs) as Hd.
-  destruct (send_data s h f) as [s1 r|s1 e|]; cbn [stI]; auto.
-  destruct r; cbn [stI].
+  destruct (send_data s h f) as [s1 r|s1 e|]; cbn [stN]; auto.
+  destruct r; cbn [stN].
   - destruct Hd as [H1 H2]. eapply IH; eauto.
-  - apply Hd.
-  - apply Hd.
+  - exact Hd.
+  - exact Hd.
 Qed.
 
 Lemma on_rto_reactions_I : forall (s s1 : vsock), on_rto_reactions cci s = Some s1 -> Iv s -> Iv s1.
@@ -744,8 +759,8 @@ Proof.
         assert (H2 : Iv s2).
         { destruct (negb _); [eapply on_rto_reactions_I; eauto | injection E as <-; exact H1]. }
         cbn [stI]. i_same s2. exact H2.
-      * apply Hd.
-      * apply E_of_I; [apply Hd | discriminate].
+      * exact Hd.
+      * apply J_E; [exact Hd | discriminate].
   - intros s1 ret H1. destruct ret; [exact H1|].
     destruct (0 <? _); [exact H1|]. destruct (ss_segs (v_segs s1)) eqn:Esg; [exact H1|].
     apply stI_bind.
@@ -767,12 +782,13 @@ Proof.
       unfold set_recovering. i_same sy. exact F3.
     + (* never-sent data *)
       intros s2 ret H2. destruct ret; [exact H2|].
-      apply stI_bind.
-      { apply (new_data_loop_rule _ s2 _ _ 0%nat); [exact H2 | apply synced_iter]. }
-      intros s3 tl H3. destruct tl as [[sq sz]|]; [|exact H3].
+      match goal with |- stI (sbind (new_data_loop ?it ?st ?h ?rem) _) =>
+        pose proof (new_data_loop_rule it st h rem 0%nat H2 (synced_iter _ _)) as Hn;
+        destruct (new_data_loop it st h rem) as [s3 tl|s3 e|] end; cbn [sbind stN stI] in *; auto.
+      destruct tl as [[sq sz]|]; [|exact Hn].
       destruct (pop_mtu_probe _ _) as [segs' popped] eqn:Ep. destruct popped; cbn [stI].
       * eapply I_pop; eauto.
-      * apply E_of_I; [exact H3 | discriminate].
+      * apply J_E; [exact Hn | discriminate].
 Qed.
 
 End SendRule.
@@ -1060,7 +1076,7 @@ Proof.
 Qed.
 
 Lemma CAP_sent : forall (s : vsock) h f s1 n rest,
-  CAP s -> synced (ss_segs (v_segs s)) n (f :: rest) -> send_data s h f = SOk s1 SdSent -> CAP s1.
+  CAP s -> synced (ss_snd_una (v_segs s)) (ss_segs (v_segs s)) n (f :: rest) -> send_data s h f = SOk s1 SdSent -> CAP s1.
 Proof.
   intros s h f s1 n rest [Hc H0] (_ & Hn & _ & _) E.
   pose proof (send_data_spec s h f) as Hd. rewrite E in Hd.
@@ -1082,10 +1098,10 @@ Proof.
 Qed.
 
 Lemma ECAP_max : forall (s : vsock) f n rest,
-  CAP s -> synced (ss_segs (v_segs s)) n (f :: rest) ->
+  CAP s -> synced (ss_snd_una (v_segs s)) (ss_segs (v_segs s)) n (f :: rest) ->
   seg_retransmit_count (fs_seg f) = o_max_retx (v_opts s) -> ECAP s ErrMaxRetransmissionsReached.
 Proof.
-  intros s f n rest Hc (_ & Hn & Hd & _) Hm. split; [exact Hc|]. intros _.
+  intros s f n rest Hc (_ & Hn & [Hd _] & _) Hm. split; [exact Hc|]. intros _.
   exists (fs_seg f). split; [eapply nth_error_In; exact Hn|]. auto.
 Qed.
 
@@ -1094,8 +1110,11 @@ Proof. intros s e Hc Hn. split; [exact Hc | intro K; contradiction]. Qed.
 
 Lemma stq_CAP : forall s : vsock, CAP s -> stI CAP ECAP (send_tx_queue cci s).
 Proof.
-  intros s Hc. apply send_tx_queue_rule; try exact Hc.
+  intros s Hc. apply (send_tx_queue_rule CAP CAP ECAP); try exact Hc.
   - exact CAP_fpr.
+  - intros a h f a1 K E. pose proof (send_data_fpr_other a h f) as F. rewrite E in F.
+    eapply CAP_fpr; eauto.
+  - exact ECAP_of.
   - exact CAP_sent.
   - exact ECAP_of.
   - exact ECAP_max.
@@ -1205,6 +1224,289 @@ Proof.
   - destruct HR as (sb & [K1 K2] & ->). split; [apply jbd_CAP; exact K1|].
     intro E. injection E as ->. apply jbd_MAXW. apply K2. reflexivity.
   - split; [exact HR | discriminate].
+Qed.
+
+(* ================================================================== what the segmentation and the ACK
+   processing keep besides the table: the datagrams, the clocks, the transport script, the restart flag *)
+Definition skr (s s' : vsock) : Prop :=
+  v_out s' = v_out s /\ v_opts s' = v_opts s /\ v_now s' = v_now s /\ v_env_now s' = v_env_now s /\
+  v_emsg_limit s' = v_emsg_limit s /\ v_restart s' = v_restart s /\ v_sends s' = v_sends s.
+
+Lemma skr_refl : forall s, skr s s. Proof. intro s. unfold skr. repeat split. Qed.
+Lemma skr_trans : forall a b c, skr a b -> skr b c -> skr a c.
+Proof.
+  unfold skr. intros a b c (A1 & A2 & A3 & A4 & A5 & A6 & A7) (B1 & B2 & B3 & B4 & B5 & B6 & B7).
+  repeat split; congruence.
+Qed.
+Ltac skr_leaf := unfold skr; repeat split; reflexivity.
+
+Lemma split_skr : forall s : vsock, stR skr s (split_tx_queue_into_segments cci s).
+Proof.
+  intros s. unfold split_tx_queue_into_segments.
+  destruct (_ =? 0); [cbn [stR]; skr_leaf|].
+  match goal with |- context [is_remote_fin_or_later (v_state ?x)] => set (s1 := x) end.
+  assert (F1 : skr s s1).
+  { subst s1. destruct (_ && _); [|apply skr_refl].
+    destruct (grow _ _) as [tx1 g]. destruct g; [destruct (wake_writer tx1)|]; unfold add_wakes; skr_leaf. }
+  clearbody s1.
+  destruct (is_remote_fin_or_later _); [exact F1|].
+  destruct (pop_expired_mtu_probe _ _ _) as [segs1 pe].
+  assert (Hcont : forall s2 : vsock, skr s s2 ->
+    stR skr s
+      (if Z.of_nat (length (ring (v_tx s))) <? ss_len_bytes (v_segs s2)
+       then SErr s2 (ErrBug BugInBufferComputations)
+       else match segment_loop (ring (v_tx s2)) (o_nagle (v_opts s2)) (v_ss s2) (v_segs s2)
+                    (Z.of_nat (length (ring (v_tx s))) - ss_len_bytes (v_segs s2))
+                    (v_last_remote_window s2) with
+            | Some (ss', segs', remaining) =>
+                SOk (set_unsegmented (VSockRec.set_segs (set_ss s2 ss') segs') remaining) tt
+            | None => SPanic
+            end)).
+  { intros s2 F2. destruct (_ <? _); [exact F2|].
+    destruct (segment_loop _ _ _ _ _ _) as [[[ss' segs'] rem']|]; [|exact I].
+    cbn [stR]. eapply skr_trans; [exact F2 | skr_leaf]. }
+  destruct pe.
+  - apply Hcont. eapply skr_trans; [exact F1|]. destruct (seq_gt _ _); skr_leaf.
+  - cbn [stR]. eapply skr_trans; [exact F1 | skr_leaf].
+  - apply Hcont. exact F1.
+Qed.
+
+Lemma pim_ack_skr : forall (s1 s2 : vsock) h res, pim_ack cci s1 h = Some (s2, res) -> skr s1 s2.
+Proof.
+  intros s1 s2 h res. unfold pim_ack.
+  destruct (remove_up_to_ack _ _ _ _) as [segs1 res0].
+  match goal with |- (match ?o with Some _ => _ | None => _ end) = _ -> _ => destruct o as [rtte1|] end; [|discriminate].
+  destruct (cc_on_ack cci _ _ _ _) as [cc3|]; [|discriminate].
+  destruct (recovery_on_ack cci _ _ _ _ _ _ _) as [[[rec1 segs2] cc4]|]; [|discriminate].
+  intro H; injection H as <- _. skr_leaf.
+Qed.
+
+(* ================================================================== the transport never answers EMSGSIZE *)
+Definition EF (s : vsock) : Prop := VSock_Inv.emsg_free s.
+
+Lemma script_legit_skipn : forall k l, C10_Pred.script_legit l = true -> C10_Pred.script_legit (skipn k l) = true.
+Proof.
+  unfold C10_Pred.script_legit. induction k as [|k IH]; intros [|x xs] H; cbn [skipn]; auto.
+  cbn [forallb] in H. apply andb_true_iff in H. apply IH. tauto.
+Qed.
+
+Lemma EF_fpr : forall s s', fpr s s' -> EF s -> EF s'.
+Proof.
+  intros s s' (_ & _ & _ & _ & E5 & _ & (k & E7) & _) [H1 H2]. unfold EF, VSock_Inv.emsg_free.
+  rewrite E5, E7. split; [apply script_legit_skipn; exact H1 | exact H2].
+Qed.
+
+Lemma EF_skr : forall s s', skr s s' -> EF s -> EF s'.
+Proof.
+  intros s s' (_ & _ & _ & _ & E5 & _ & E7) H. unfold EF, VSock_Inv.emsg_free in *. rewrite E5, E7. exact H.
+Qed.
+
+(* a transmission: the script is only consumed *)
+Lemma send_data_script : forall (s : vsock) h f,
+  match send_data s h f with
+  | SOk s1 r => v_emsg_limit s1 = v_emsg_limit s /\ (exists k, v_sends s1 = skipn k (v_sends s)) /\
+                v_env_now s1 = v_env_now s /\ (EF s -> r <> SdEmsgsize)
+  | _ => True
+  end.
+Proof.
+  intros s h f. unfold send_data.
+  destruct (_ =? o_max_retx _); [exact I|].
+  destruct (_ <? 0); [exact I|].
+  destruct (_ <? fs_payload_offset f); [exact I|].
+  destruct (_ <? _ + _); [exact I|].
+  destruct (next_send s _) as [s1 o] eqn:E.
+  destruct (VSock_Inv.next_send_shape _ _ _ _ E) as [Hsh Hne].
+  assert (K : v_emsg_limit s1 = v_emsg_limit s /\ (exists k, v_sends s1 = skipn k (v_sends s)) /\
+              v_env_now s1 = v_env_now s).
+  { destruct Hsh as [[-> _]|(o0 & r & Hs & ->)].
+    - repeat split. exists 0%nat. reflexivity.
+    - vsimpl_goal. repeat split. exists 1%nat. rewrite Hs. reflexivity. }
+  destruct K as (K1 & K2 & K3).
+  destruct o; try exact I.
+  - cbv zeta. unfold on_packet_sent, emit.
+    destruct (seq_gt _ _); [destruct (seq_gt _ _)|]; vsimpl_goal; repeat split; auto; discriminate.
+  - vsimpl_goal. repeat split; auto. discriminate.
+  - repeat split; auto. intros He _. apply (Hne He). reflexivity.
+Qed.
+
+(* ================================================================== every ST_DATA of the poll names a live
+   segment of the table: in the table, not delivered, sent, of that payload size, (re)transmitted at this
+   poll's clock *)
+Definition live_pkt (s : vsock) (p : packet) : Prop :=
+  ch_type (p_hdr p) = ST_DATA ->
+  exists j g, nth_error (ss_segs (v_segs s)) j = Some g /\
+    ch_seq (p_hdr p) = wadd16 (ss_snd_una (v_segs s)) (Z.of_nat j mod M16) /\
+    sg_delivered g = false /\ sg_sent g <> NotSent /\
+    sg_size g = Z.of_nat (length (p_payload p)) /\ seg_last_sent g = Some (v_now s).
+
+Definition OUT (s : vsock) : Prop := Forall (live_pkt s) (v_out s).
+Definition SZ (s : vsock) : Prop := Forall (fun g => 0 <= sg_size g) (ss_segs (v_segs s)).
+
+Lemma nodata_live : forall (s : vsock) p, nodata p -> live_pkt s p.
+Proof. intros s p H K. contradiction. Qed.
+
+Lemma OUT_fpr : forall s s', fpr s s' -> OUT s -> OUT s'.
+Proof.
+  intros s s' (E1 & _ & E3 & _ & _ & _ & _ & l & E8 & E9) H. unfold OUT. rewrite E8.
+  apply Forall_app. split.
+  - eapply Forall_impl; [|exact E9]. intros p Hp. apply nodata_live. exact Hp.
+  - eapply Forall_impl; [|exact H]. intros p Hp. unfold live_pkt. rewrite E1, E3. exact Hp.
+Qed.
+
+Lemma nodata_OUT : forall s : vsock, Forall nodata (v_out s) -> OUT s.
+Proof. intros s H. unfold OUT. eapply Forall_impl; [|exact H]. intros p Hp. apply nodata_live. exact Hp. Qed.
+
+Lemma seg_inv_SZ : forall s : vsock, seg_inv (v_segs s) -> SZ s.
+Proof.
+  intros s (_ & _ & Ht & _). unfold SZ. apply Forall_forall. intros g Hg.
+  destruct (VSock_Inv.tiled_in _ _ _ Ht Hg) as (_ & _ & H). exact H.
+Qed.
+
+(* the invariant of send_tx_queue in the strict regime *)
+Definition IO (s : vsock) : Prop :=
+  EF s /\ v_restart s = false /\ NW s /\ OUT s /\ SZ s.
+
+Lemma IO_fpr : forall s s', fpr s s' -> IO s -> IO s'.
+Proof.
+  intros s s' F (H1 & H2 & H3 & H4 & H5).
+  pose proof F as (E1 & _ & E3 & E4 & _ & E6 & _).
+  split; [eapply EF_fpr; eauto|]. split; [congruence|]. split; [unfold NW in *; congruence|].
+  split; [eapply OUT_fpr; eauto|]. unfold SZ. rewrite E1. exact H5.
+Qed.
+
+Lemma seg_on_sent_last : forall g now, seg_last_sent (seg_on_sent g now) = Some now.
+Proof. intros g now. unfold seg_last_sent, seg_on_sent. cbn [sg_sent]. destruct (sg_sent g); reflexivity. Qed.
+
+Lemma seg_on_sent_sent : forall g now, sg_sent (seg_on_sent g now) <> NotSent.
+Proof. intros g now. unfold seg_on_sent. cbn [sg_sent]. destruct (sg_sent g); discriminate. Qed.
+
+Lemma IO_sent : forall (s : vsock) h f s1 n rest,
+  IO s -> synced (ss_snd_una (v_segs s)) (ss_segs (v_segs s)) n (f :: rest) ->
+  send_data s h f = SOk s1 SdSent -> IO s1.
+Proof.
+  intros s h f s1 n rest (H1 & H2 & H3 & H4 & H5) (_ & Hn & [Hdl Hsq] & _) E.
+  pose proof (send_data_spec s h f) as Hd. rewrite E in Hd.
+  pose proof (send_data_script s h f) as Hs. rewrite E in Hs.
+  destruct Hd as (Hf & Ho & Hsg & _ & _ & _ & _ & Hoff & Hb).
+  destruct Hs as (S1 & (k & S2) & S3 & _).
+  assert (Hf' := Hf). destruct Hf' as (_ & _ & _ & _ & _ & _ & F7 & _ & _ & _ & F11 & _).
+  assert (Hsz : 0 <= sg_size (fs_seg f)).
+  { unfold SZ in H5. rewrite Forall_forall in H5. apply H5. eapply nth_error_In; exact Hn. }
+  split; [destruct H1 as [L1 L2]; unfold EF, VSock_Inv.emsg_free; rewrite S1, S2; split;
+          [apply script_legit_skipn; exact L1 | exact L2]|].
+  split; [congruence|]. split; [unfold NW in *; congruence|].
+  split.
+  - unfold OUT. rewrite Ho. constructor.
+    + intros _. exists (fs_idx f), (seg_on_sent (fs_seg f) (v_now s)).
+      rewrite Hsg, F7. unfold on_sent, Segments.set_segs. cbn [ss_segs ss_snd_una].
+      split; [rewrite nth_error_update_nth, Nat.eqb_refl, Hn; reflexivity|].
+      split; [exact Hsq|]. split; [exact Hdl|]. split; [apply seg_on_sent_sent|].
+      split; [|apply seg_on_sent_last].
+      unfold data_pkt, data_payload, seg_on_sent. cbn [p_payload sg_size].
+      rewrite firstn_length, skipn_length. lia.
+    + eapply Forall_impl; [|exact H4]. intros p Hp Ht. destruct (Hp Ht) as (j & g & A1 & A2 & A3 & A4 & A5 & A6).
+      rewrite Hsg, F7. unfold on_sent, Segments.set_segs. cbn [ss_segs ss_snd_una].
+      destruct (Nat.eqb_spec (fs_idx f) j) as [Ej|Ej].
+      * exists j, (seg_on_sent g (v_now s)).
+        split; [rewrite nth_error_update_nth; subst j; rewrite Nat.eqb_refl, A1; reflexivity|].
+        split; [exact A2|]. split; [exact A3|]. split; [apply seg_on_sent_sent|].
+        split; [exact A5 | apply seg_on_sent_last].
+      * exists j, g. split; [rewrite nth_error_update_nth|]; auto.
+        destruct (Nat.eqb_spec (fs_idx f) j); [contradiction | exact A1].
+  - unfold SZ. rewrite Hsg. unfold on_sent, Segments.set_segs. cbn [ss_segs].
+    apply Forall_update_nth; [exact H5|]. intros x Hx. unfold SZ in H5. rewrite Forall_forall in H5.
+    apply (H5 x). eapply nth_error_In; exact Hx.
+Qed.
+
+Lemma stq_IO : forall s : vsock, IO s -> stI IO (fun _ _ => True) (send_tx_queue cci s).
+Proof.
+  intros s Hi. apply (send_tx_queue_rule IO (fun _ => False) (fun _ _ => True)); try exact Hi; auto.
+  - exact IO_fpr.
+  - intros a h f a1 (K & _) E. pose proof (send_data_script a h f) as Hs. rewrite E in Hs.
+    destruct Hs as (_ & _ & _ & Hs). apply (Hs K). reflexivity.
+  - exact IO_sent.
+  - intros a segs' q ss' [].
+Qed.
+
+(* the stage before send_tx_queue *)
+Definition IA (s : vsock) : Prop :=
+  EF s /\ v_restart s = false /\ NW s /\ Forall nodata (v_out s).
+
+Lemma IA_fpr : forall s s', fpr s s' -> IA s -> IA s'.
+Proof.
+  intros s s' F (H1 & H2 & H3 & H4).
+  pose proof F as (_ & _ & E3 & E4 & _ & E6 & _ & l & E8 & E9).
+  split; [eapply EF_fpr; eauto|]. split; [congruence|]. split; [unfold NW in *; congruence|].
+  rewrite E8. apply Forall_app. split; assumption.
+Qed.
+
+Lemma IA_skr : forall s s', skr s s' -> IA s -> IA s'.
+Proof.
+  intros s s' K (H1 & H2 & H3 & H4). pose proof K as (E1 & _ & E3 & E4 & _ & E6 & _).
+  split; [eapply EF_skr; eauto|]. split; [congruence|]. split; [unfold NW in *; congruence|].
+  rewrite E1. exact H4.
+Qed.
+
+Lemma pim_IA : forall s : vsock, IA s -> spI IA (process_all_incoming_messages cci s).
+Proof.
+  intros s Hi. apply pim_rule; try exact Hi.
+  - exact IA_fpr.
+  - intros s1 s2 h res K E. eapply IA_skr; [eapply pim_ack_skr; exact E | exact K].
+  - intros s3 hr hd rtt now segs' p rc rcx K _. eapply IA_skr; [|exact K]. unfold set_recovering. skr_leaf.
+Qed.
+
+(* the whole poll in the strict regime: NW and OUT at every Pending exit *)
+Theorem poll_OUT_strict : forall (s s' : vsock),
+  LB 0 s -> EF s -> poll cci s = (s', PollPending) -> NW s' /\ OUT s'.
+Proof.
+  intros s s' HL HE H.
+  set (A0 := fun a : vsock => LB 0 a /\ EF a /\ v_out a = []).
+  set (A := fun a : vsock => LB 0 a /\ IA a).
+  set (Cc := fun a : vsock => NW a /\ OUT a).
+  assert (HA_Cc : forall a, IA a -> Cc a).
+  { intros a (_ & _ & K3 & K4). split; [exact K3 | apply nodata_OUT; exact K4]. }
+  assert (Hsfp : forall X (a : vsock) (m : step X), A a -> sfp a m -> skp a m ->
+             stH Cc (fun _ _ => True) A m).
+  { intros X a m [L K] F S. destruct m as [a' x|a' e|]; cbn [sfp skp stH] in *; auto.
+    assert (K' : IA a') by (eapply IA_fpr; eauto).
+    split; intros _; [apply HA_Cc; exact K' | split; [eapply LB_kp; eauto | exact K']]. }
+  assert (Hcfp : forall X (a : vsock) (m : step X), Cc a -> sfp a m -> stH Cc (fun _ _ => True) Cc m).
+  { intros X a m [K1 K2] F. destruct m as [a' x|a' e|]; cbn [sfp stH] in *; auto.
+    assert (K' : Cc a').
+    { pose proof F as (_ & _ & E3 & E4 & _). split; [unfold NW in *; congruence | eapply OUT_fpr; eauto]. }
+    split; intros _; exact K'. }
+  assert (HR : resH A0 Cc Cc (fun _ _ => True) s' PollPending).
+  { apply (poll_H A0 A A A Cc Cc Cc (fun _ _ => True)) with (s := s); try exact H.
+    - intros a (L & E & O). split; [eapply LB_kp; [exact L|]; unfold kp; auto|].
+      split; [exact E|]. split; [reflexivity|]. split; [reflexivity|].
+      change (v_out (poll_start a)) with (v_out a). rewrite O. constructor.
+    - intros a K _. apply (Hsfp _ a); [exact K | apply maybe_send_syn_ack_fpr | apply maybe_send_syn_ack_kp].
+    - intros a K _. apply (Hsfp _ a); [exact K | apply send_ack_fpr | apply send_ack_kp].
+    - intros a [L K] _. pose proof (process_all_LB cci a L) as PL. pose proof (pim_IA a K) as PI.
+      destruct (process_all_incoming_messages cci a) as [a' x|a' e|]; cbn [sLB spI stH] in *; auto.
+      split; intros _; [apply HA_Cc; exact PI | split; assumption].
+    - intros a rx1 fb w [L K] _ _. split; [eapply LB_kp; [exact L|]; unfold kp, add_wakes; auto|].
+      eapply IA_fpr; [|exact K]. unfold add_wakes. fpr_leaf.
+    - auto.
+    - intros a [L K] _. pose proof (split_LB cci a L) as PL. pose proof (split_skr a) as PS.
+      destruct (split_tx_queue_into_segments cci a) as [a' x|a' e|]; cbn [sLB stR stB] in *; auto.
+      split; [exact PL | eapply IA_skr; eauto].
+    - intros a [L (K1 & K2 & K3 & K4)] _ _.
+      assert (Hio : IO a).
+      { split; [exact K1|]. split; [exact K2|]. split; [exact K3|]. split; [apply nodata_OUT; exact K4|].
+        apply seg_inv_SZ. apply L. }
+      pose proof (stq_IO a Hio) as S.
+      destruct (send_tx_queue cci a) as [a' x|a' e|]; cbn [stI stQ] in *; auto.
+      destruct S as (S1 & S2 & S3 & S4 & S5).
+      split; [intro R; congruence|]. split; intros _ _; split; assumption.
+    - intros a [K1 K2] _. pose proof (transition_fpr a) as F. pose proof F as (_ & _ & E3 & E4 & _).
+      split; [unfold NW in *; congruence | eapply OUT_fpr; eauto].
+    - intros a K _. apply (Hcfp _ a); [exact K | apply maybe_send_fin_fpr].
+    - intros a K _. apply (Hcfp _ a); [exact K | apply maybe_send_ack_fpr].
+    - split; [eapply LB_kp; [exact HL|]; unfold kp; auto|]. split; [exact HE | reflexivity]. }
+  cbn [resH] in HR. destruct HR as [[_ K]|(sb & [K1 K2] & _ & _ & _ & ->)]; [exact K|].
+  pose proof (poll_tail_fpr sb) as F. pose proof F as (_ & _ & E3 & E4 & _).
+  split; [unfold NW in *; congruence | eapply OUT_fpr; eauto].
 Qed.
 
 (* ================================================================== the joint relation of ring and table,
